@@ -16,9 +16,10 @@ by construction once `no_panic` holds.  Both `Reader` implementations that see u
 (`rd = .bin`: `ser::deserialize`; `rd = .buf`: the codec's `BufReader`) and every protocol version
 (the native p2p bodies do not consult it) are covered by the quantifiers.
 
-**Where the property is false for the code as it stands** the negation is proved with a concrete
-witness (`merkleProof_*`, `utilFromHex_panics`, `merkleProofFromHex_panics`); the harness replays the
-same witnesses on the real functions.
+The three decoders for which the property was false when this file was first written
+(`MerkleProof::read`, `MerkleProof::from_hex`, `util::from_hex`) have been repaired in /repo; the
+theorems below are the positive ones for the repaired code, and the old witnesses are regression
+probes in the harness.
 
 The codec state machine's own panic sites (`msg_len - 2`, `*items_left -= 1`, `*left -= next_len`,
 `assert!(state.is_none())`) and its per-read allocation bound are in `Props/C19.lean`
@@ -132,50 +133,58 @@ theorem segment_alloc_bound {α : Type} (rd : Rdr) (p : Dec α) (e : Nat) (hp : 
 theorem segment_positions_no_panic (count : Nat) (bytes : Bytes) : (segPositions count bytes).isPanic = false :=
   noPanic_segPositions count bytes
 
-/-! ## Merkle proofs: where the property fails -/
+/-! ## Merkle proofs and hex strings (repaired in /repo: 28eb6068d, 96c08899a, 67ed6aa33)
 
-/-- **`MerkleProof::read` panics** ("capacity overflow") on the 16 bytes
-`00…00 0400000000000000` (`mmr_size = 0`, `path_len = 2^58`). -/
-theorem merkleProof_read_panics (rd : Rdr) :
-    (merkleProof rd (mpWitness (2^58))).isPanic = true ∧ (mpWitness (2^58)).length = 16 := by
-  rw [merkleProof_panics rd]; exact ⟨rfl, mpWitness_length _⟩
+`MerkleProof::read` used to pre-allocate `path_len` hashes from the wire, `MerkleProof::from_hex`
+unwrapped the hex error, `util::from_hex` sliced a `&str` by byte offsets.  The models follow the code
+as it is now; the old behaviour is kept as `merkleProofUnrepaired` / `hexLoop_needs_guard` so that the
+difference stays kernel-checked, and the harness replays the old witnesses as regression probes. -/
 
-/-- **`MerkleProof::read` has no allocation bound**: any proposed `c * len + k` is exceeded by a
-16-byte input that does not even panic (the request goes to the allocator) -/
-theorem merkleProof_read_alloc_unbounded (rd : Rdr) (c k : Nat) (hck : c * 16 + k < 2^57) :
-    ∃ bytes : Bytes, bytes.length = 16 ∧ (∀ b ∈ bytes, b < 256) ∧ (merkleProof rd bytes).isPanic = false ∧
-      (merkleProof rd bytes).alloc > c * bytes.length + k :=
-  merkleProof_alloc_unbounded rd c k hck
+theorem merkleProof_no_panic (rd : Rdr) (bytes : Bytes) : (merkleProof rd bytes).isPanic = false :=
+  noPanic_merkleProof rd bytes
 
-/-- 16 bytes in, at least 128 GiB requested (`path_len = 2^32`) -/
-theorem merkleProof_read_alloc_witness (rd : Rdr) :
-    (mpWitness (2^32)).length = 16 ∧ (merkleProof rd (mpWitness (2^32))).alloc ≥ 2^37 :=
-  merkleProof_alloc_witness rd
+/-- `MerkleProof::read`: what it reads, plus at most 64 pre-allocated hashes and one failed 32-byte read -/
+theorem merkleProof_alloc_bound (rd : Rdr) (bytes : Bytes) : (merkleProof rd bytes).alloc ≤ 1 * bytes.length + 2080 :=
+  (bnd_merkleProof rd).alloc_le bytes
 
-/-- the defect is exactly the `Vec::with_capacity(path_len)`: the same reader without it is
-panic-free and allocates at most what it reads (+ one failed 32-byte read) -/
-theorem merkleProof_without_prealloc_no_panic (rd : Rdr) (bytes : Bytes) :
-    (merkleProofNoPrealloc rd bytes).isPanic = false := noPanic_merkleProofNoPrealloc rd bytes
-theorem merkleProof_without_prealloc_alloc_bound (rd : Rdr) (bytes : Bytes) :
-    (merkleProofNoPrealloc rd bytes).alloc ≤ 1 * bytes.length + 32 :=
-  (bnd_merkleProofNoPrealloc rd).alloc_le bytes
+theorem merkleProof_loop_progress (rd : Rdr) (count : Nat) (bytes : Bytes) (xs : List Bytes) (rest : Bytes) (n : Nat)
+    (h : readN (rHash rd) count bytes = .ok xs rest n) : 32 * xs.length ≤ 32 * (bytes.length - rest.length) := by
+  have := readN_progress (prog_rHash rd) count bytes xs rest n h
+  omega
 
-/-- **`util::from_hex` panics** on `"€a"` (slice `[0..2]` ends inside the 3-byte character) -/
-theorem utilFromHex_panics_witness : utilFromHex [0xE2, 0x82, 0xAC, 0x61] = .panic .charBoundary :=
-  utilFromHex_panics
+/-- the old witnesses (16 bytes, `path_len = 2^58` / `2^32`) are now an `IOErr` with ≤ 2080 bytes requested -/
+theorem merkleProof_old_witnesses (rd : Rdr) :
+    (merkleProof rd (mpWitness (2^58))).isPanic = false ∧ (merkleProof rd (mpWitness (2^58))).alloc ≤ 2080 ∧
+    (merkleProof rd (mpWitness (2^32))).alloc ≤ 2080 := by
+  rw [merkleProof_on_old_witness rd (2^58) (by decide) (by decide),
+      merkleProof_on_old_witness rd (2^32) (by decide) (by decide)]
+  have : MERKLE_PREALLOC = 64 := rfl
+  refine ⟨rfl, ?_, ?_⟩ <;> cases rd <;> simp [Outcome.alloc, this]
 
-/-- … and only on non-ASCII input -/
-theorem utilFromHex_ascii_no_panic (s : Bytes) (h : ∀ b ∈ s, b < 128) (st : Site) : utilFromHex s ≠ .panic st :=
-  utilFromHex_ascii_noPanic s h st
+/-- what the repair removed: the unrepaired reader panicked on 16 bytes and asked for ≥ 128 GiB on 16 others -/
+theorem merkleProof_unrepaired_failed (rd : Rdr) :
+    (merkleProofUnrepaired rd (mpWitness (2^58))).isPanic = true ∧
+    (merkleProofUnrepaired rd (mpWitness (2^32))).alloc ≥ 2^37 := by
+  rw [merkleProofUnrepaired_panics rd]
+  exact ⟨rfl, (merkleProofUnrepaired_alloc_witness rd).2⟩
+
+/-- **`util::from_hex` never panics**, on any `&str` -/
+theorem utilFromHex_no_panic (s : Bytes) (st : Site) : utilFromHex s ≠ .panic st := utilFromHex_noPanic s st
+
+/-- `"€a"` is an `Err` now; the slicing loop alone would still panic on it -/
+theorem utilFromHex_old_witness_is_err :
+    utilFromHex [0xE2, 0x82, 0xAC, 0x61] = .err ∧ hexLoop [0xE2, 0x82, 0xAC, 0x61] = .panic .charBoundary :=
+  ⟨utilFromHex_old_witness, hexLoop_needs_guard⟩
 
 example : utilFromHex [0x30, 0x78, 0x30, 0x61, 0x46, 0x66] = .ok [10, 255] := by decide
 /-- `from_str_radix` accepts a sign: `"+f"` decodes to `0x0f` -/
 example : utilFromHex [0x2b, 0x66] = .ok [15] := by decide
 
-/-- **`MerkleProof::from_hex` panics** on `"zz"` (the `unwrap` of `util::from_hex`'s `Err`) and on
-any odd-length string, e.g. `"0"` -/
-theorem merkleProofFromHex_panics_witness :
-    (merkleProofFromHex [0x7a, 0x7a]).isPanic = true ∧ (merkleProofFromHex [0x30]).isPanic = true :=
-  ⟨merkleProofFromHex_panics, merkleProofFromHex_panics_odd⟩
+/-- **`MerkleProof::from_hex` never panics** (`"zz"`, `"0"`, `"€a"` included) -/
+theorem merkleProofFromHex_no_panic (s : Bytes) : (merkleProofFromHex s).isPanic = false :=
+  merkleProofFromHex_noPanic s
+
+theorem merkleProofFromHex_alloc_bound (s : Bytes) :
+    (merkleProofFromHex s).alloc ≤ (trim0x (strTrim s)).length + 2080 := merkleProofFromHex_alloc s
 
 end GV.Props.C11
